@@ -21,6 +21,7 @@ import (
 func c8counting(tier string) []mc.Unit {
 	var us []mc.Unit
 	maxn := tier2(tier, 6, 8)
+	subMax := tier2(tier, 6, 7)
 	for _, id := range []int{1, 2, 11} {
 		for n := 0; n <= maxn; n++ {
 			id, n := id, n
@@ -54,6 +55,16 @@ func c8counting(tier string) []mc.Unit {
 				f := func(b []byte) {
 					s := string(b)
 					one(s)
+					if n <= subMax && n > 0 {
+						// one non-ACGT letter at every position (frame must be kept after it)
+						for pos := 0; pos < n; pos++ {
+							for _, x := range []byte{'N', 'U', '-', 'n'} {
+								bs := append([]byte(nil), b...)
+								bs[pos] = x
+								one(string(bs))
+							}
+						}
+					}
 					if n <= 4 && n > 0 {
 						for m := 1; m < 1<<n; m++ {
 							bs := append([]byte(nil), b...)
@@ -63,13 +74,6 @@ func c8counting(tier string) []mc.Unit {
 								}
 							}
 							one(string(bs))
-						}
-						for pos := 0; pos < n; pos++ {
-							for _, x := range []byte{'N', 'U', '-', 'n'} {
-								bs := append([]byte(nil), b...)
-								bs[pos] = x
-								one(string(bs))
-							}
 						}
 					}
 				}
@@ -477,6 +481,7 @@ func c8schedules(tier string) []mc.Unit {
 				codon.VerifResetGlobals()
 				results := make([]codon.Table, len(sc.ids))
 				letters := make([]string, len(sc.ids))
+				var post []tableView
 				out := sched.Run(c, sched.Options{Horizon: 200000, KeyRunning: true}, func() {
 					var wg sched.WaitGroup
 					for i := range sc.ids {
@@ -490,6 +495,12 @@ func c8schedules(tier string) []mc.Unit {
 						})
 					}
 					wg.Wait()
+					// after the concurrent phase: re-weight again, sequentially, with every sequence
+					for i := range sc.ids {
+						for j := range sc.seqs {
+							post = append(post, viewOf(deepCopyTable(codon.GetCodonTable(sc.ids[i])).OptimizeTable(sc.seqs[j])))
+						}
+					}
 				})
 				if out.Steps > maxSteps {
 					maxSteps = out.Steps
@@ -516,6 +527,18 @@ func c8schedules(tier string) []mc.Unit {
 					if got.letters() != letters[i] {
 						good = false
 						r.Fail(mc.Failure{Clause: "concurrent-assignment-untouched", Case: cas, Tags: []string{"schedule"}, Choices: c.Choices(), Expected: letters[i], Got: got.letters()})
+					}
+				}
+				for k, pv := range post {
+					j := k % len(sc.seqs)
+					want := inFrameCounts(sc.seqs[j])
+					for _, cd := range allCodons {
+						if pv.w[cd] != want[cd] {
+							good = false
+							r.Fail(mc.Failure{Clause: "after-concurrent-counts", Case: cas, Tags: []string{"schedule"}, Choices: c.Choices(),
+								Expected: fmt.Sprintf("sequential re-weighting of table %d with %s after the concurrent phase: %s=%d", sc.ids[k/len(sc.seqs)], sc.seqs[j], cd, want[cd]), Got: fmt.Sprintf("%s=%d", cd, pv.w[cd])})
+							break
+						}
 					}
 				}
 				o := strings.Join(obs, "#")
